@@ -22,13 +22,13 @@ pub const TOP_FIELDS: &[&str] = &[
 ];
 pub const NEST_HOLDERS: &[&str] = &["o1", "objs", "o1.p", "objs[0]"];
 pub const INNER_FIELDS: &[&str] = &["x", "y", "n", "p.q", "x", "y"];
-pub const CAST_FIELDS: &[&str] = &["n1", "n2", "f1", "b1", "o1.x", "arr[0]", "z1"];
+pub const CAST_FIELDS: &[&str] = &["n1", "n2", "f1", "b1", "o1.x", "arr[0]", "z1", "n1", "n2", "not.before", "or.x"];
 pub const IDENT_NAMES_PLAIN: &[&str] = &["A", "B", "C", "D", "E", "F"];
 pub const IDENT_NAMES_KEYWORDY: &[&str] =
-    &["android", "order", "nothing", "allow", "offline", "integer", "stringent", "notes", "flt1", "of_x"];
+    &["android", "order", "nothing", "allow", "offline", "integer", "stringent", "notes", "flt1", "of_x", "or.else", "and.x", "not#1", "and[0]", "or#", "not.before"];
 
 /// names that differ only by case
-pub const IDENT_NAMES_CASEY: &[&str] = &["sel", "Sel", "SEL", "a", "A", "sEl"];
+pub const IDENT_NAMES_CASEY: &[&str] = &["sel", "Sel", "SEL", "a", "A", "sEl", "sel1", "sel01", "sel001", "sel10", "sel2"];
 
 pub fn pick<'a>(list: &'a [&'a str], idx: u16) -> &'a str {
     list[(idx as usize * list.len()) >> 16]
